@@ -406,7 +406,8 @@ func (e *Exec) applyContractFull(con *Contract, fn *ssa.Function, sig *types.Sig
 		env.vars[l.Name] = e.evalSpecSafe(env, con.LetExprs[i], con, "let "+l.Name)
 	}
 	for _, ac := range e.Con.AtCalls {
-		if !ac.Clause.activeFor(e.Prop) || !(strings.HasSuffix(con.Key, "."+ac.Callee) || con.Key == ac.Callee) {
+		ck := stripTypeArgs(con.Key)
+		if !ac.Clause.activeFor(e.Prop) || !(strings.HasSuffix(ck, "."+ac.Callee) || ck == ac.Callee) {
 			continue
 		}
 		cv := map[string]Value{}
@@ -1191,4 +1192,25 @@ func (e *Exec) unknownExtern(key string) *Contract {
 		Trusted: "defaulted: no contract for this external function - treated as changing anything and returning anything"}
 	e.CS.ByKey[key] = c
 	return c
+}
+
+// stripTypeArgs removes the type-argument list go/ssa appends to the name of an instantiated generic function
+// ("pkg.(T[A, B]).Set[A B]" -> "pkg.(T[A, B]).Set"), so that atcall clauses can name such callees.
+func stripTypeArgs(key string) string {
+	if !strings.HasSuffix(key, "]") {
+		return key
+	}
+	depth := 0
+	for i := len(key) - 1; i >= 0; i-- {
+		switch key[i] {
+		case ']':
+			depth++
+		case '[':
+			depth--
+			if depth == 0 {
+				return key[:i]
+			}
+		}
+	}
+	return key
 }
